@@ -115,6 +115,29 @@ static void grammar_faults(void)
 	ll['a'] = 1; ll[256] = 2; ll[257] = 2; dl[0] = 1; dl[1] = 1; dl[2] = 1;
 	bw_init(&w, buf, sizeof buf); gen_dyn_header(&w, 1, ll, 258, dl, 3, 0, 0); bw_code(&w, 0, 1); bw_code(&w, 2, 2);
 	fault("over-subscribed distance set", &w, RC_BLOCK);
+	/* over-subscription by the SMALLEST possible excess at every depth D = 2..15: a chain 1, 2, ..., D-1, D, D (complete) plus one more
+	 * code of length D - for the distance alphabet and for the literal/length alphabet (the excess is 2^-D of the code space, so a
+	 * check that only looks at the shorter codes, or sums with too little precision, lets it through) */
+	for (int D = 2; D <= 15; D++)
+		for (int alpha = 0; alpha < 2; alpha++) {
+			char nm[96];
+			memset(ll, 0, sizeof ll); memset(dl, 0, sizeof dl);
+			if (alpha == 0) { /* distance alphabet over-subscribed; lit/len {a:1, EOB:2, 257:2} complete */
+				ll['a'] = 1; ll[256] = 2; ll[257] = 2;
+				for (int i = 0; i < D - 1; i++) dl[i] = (uint8_t)(i + 1);
+				dl[D - 1] = dl[D] = dl[D + 1] = (uint8_t)D;
+				bw_init(&w, buf, sizeof buf); gen_dyn_header(&w, 1, ll, 258, dl, D + 2, D & 1, 0);
+			} else { /* literal/length alphabet over-subscribed (EOB among the chain), one distance code */
+				for (int i = 0; i < D - 1; i++) ll[i == 0 ? 256 : 'a' + i] = (uint8_t)(i + 1);
+				ll['A'] = ll['B'] = ll['C'] = (uint8_t)D;
+				dl[0] = 1;
+				bw_init(&w, buf, sizeof buf); gen_dyn_header(&w, 1, ll, 257, dl, 1, D & 1, 0);
+			}
+			bw_code(&w, 0, 1); /* the 1-bit code (literal a / EOB), then zeros */
+			bw_bits(&w, 0, 40);
+			snprintf(nm, sizeof nm, "%s set over-subscribed by one extra code of length %d (chain 1..%d,%d,%d)", alpha ? "literal/length" : "distance", D, D - 1, D, D);
+			fault(nm, &w, RC_BLOCK);
+		}
 	/* over-subscribed code-length code: written by hand */
 	bw_init(&w, buf, sizeof buf);
 	gen_block_hdr(&w, 1, 2); bw_bits(&w, 0, 5); bw_bits(&w, 0, 5); bw_bits(&w, 15, 4);
